@@ -5,6 +5,7 @@ declared by the new text or stood in the replaced block; what the new block decl
 import ReuseVerif.Lemmas.C09Step
 import ReuseVerif.Theorems.C20
 import ReuseVerif.Lemmas.History
+import ReuseVerif.Lemmas.C10OrderSort
 
 namespace C09L
 open Py Model Spec C08L C10L
@@ -166,6 +167,7 @@ theorem createHeader_merged {c : HdrCfg} {info : Extracted} {header h : Text} (h
 theorem mem_mergePool {o : Op} {t l : Text} :
     l ∈ mergePool o t ↔ l ∈ o.info.cpr ∨ l ∈ (extractRaw (sectionsOf o.c o.replace t).2.1).cpr := by
   unfold mergePool
+  rw [(C10Order.sortTexts_perm _).mem_iff]
   by_cases he : (sectionsOf o.c o.replace t).2.1.isEmpty = true
   · simp only [he, if_true]
     have : (sectionsOf o.c o.replace t).2.1 = [] := List.isEmpty_iff.mp he
